@@ -800,6 +800,8 @@ val tbl_shrink_target : table -> nat -> nat
 
 val tbl_can_shrink : table -> nat -> bool
 
+val w_shrink_clock : (nat -> bool) -> bool mW
+
 val w_shrink_core : bool -> bool mW
 
 val w_shrink : bool -> bool mW
@@ -930,6 +932,10 @@ val handle : w -> z -> ent option
 val resolveH : z -> ent mW
 
 val resolveR : hrel list -> rel list mW
+
+val no_relidx : rel list -> bool
+
+val resolve_relidx : nat -> rel list -> rel list mW
 
 val logged_entities : z list list -> ent list
 
